@@ -2,6 +2,7 @@
 CONSTANTS
   Fns = {"wrap", "rst", "fixws", "embed"}
   Alphabet = {"w3", "w9", "long", "sp", "sps", "tab", "nl", "blank", "li", "star", "plus", "num", "colon", "quote", "tquote", "bslash"}
+  MinLen = 0
   MaxLen = 0
   Widths = {}
   Indents = {}
